@@ -11,6 +11,7 @@ import (
 )
 
 func init() {
+	register("T-STRINGER", ruleStringers)
 	register("T-DISPATCH", ruleDispatch)
 	register("T-SCAN", ruleScanLoops)
 	register("T-DECODE", ruleDecode)
@@ -717,4 +718,46 @@ func (c *Ctx) literalPayloadFrom(fn *ssa.Function, cl *Clause, sw *EnumSwitch, a
 		}
 	}
 	return false
+}
+
+// T-STRINGER: the generated String() methods, reachable through error
+// messages, cannot index outside their tables for any value of the enumeration type.
+func ruleStringers(c *Ctx) *RuleResult {
+	r := &RuleResult{Doc: "generated stringers (tokType, astNodeType): folded for every value in a window around the table and at the extremes; the range guard keeps both table indices and the name slice in bounds", Floor: 2}
+	for _, tn := range []string{"tokType", "astNodeType"} {
+		fn := c.methodOpt(tn, "String")
+		if fn == nil {
+			continue
+		}
+		r.Instances++
+		dom := []int64{-9223372036854775808, -129, -1, 9223372036854775807, 255, 256, 65536}
+		for i := int64(-4); i < 64; i++ {
+			dom = append(dom, i)
+		}
+		var bad []string
+		for _, v := range dom {
+			f := newFolder(c)
+			f.env[fn.Params[0]] = fval{kind: 'i', i: v, bits: 64}
+			st := f.run(fn.Blocks[0], 0, nil)
+			switch st.kind {
+			case "return":
+			case "call":
+				// strconv.FormatInt for out-of-range values: fine
+				if !strings.HasPrefix(calleeName(st.instr.(*ssa.Call)), "strconv.") {
+					bad = append(bad, fmt.Sprintf("%d: calls %s", v, calleeName(st.instr.(*ssa.Call))))
+				}
+			default:
+				bad = append(bad, fmt.Sprintf("%d: %s %s", v, st.kind, st.what))
+			}
+		}
+		if len(bad) == 0 {
+			r.ok("stringer|"+tn, c.pos(fn.Pos()), fname(fn), fmt.Sprintf("folded for %d values: returns a name or formats the number, never indexes out of range", len(dom)))
+		} else {
+			if len(bad) > 5 {
+				bad = bad[:5]
+			}
+			r.viol("stringer|"+tn, c.pos(fn.Pos()), fname(fn), strings.Join(bad, "; "))
+		}
+	}
+	return r
 }
